@@ -962,6 +962,12 @@ SYSTEMATIC = [
                      '${f(a)}<q>$a</q><p i18n:msg="a" i18n:domain="foo">Hello $a</p>'
                      '<div i18n:choose="n; n"><p i18n:singular="">One $n</p><p i18n:plural="">Many $n</p></div>' + G.TAIL,
      'files': {}, 'translator': True, 'auto_reload': True},
+    # lazily evaluated nested scopes (wave 4): a thread preempted while a generator is suspended between two items /
+    # between the definition and the call of a lambda, the other thread evaluating the same expressions meanwhile
+    {'src': G.HEAD + '<?python\ndef gen1():\n    for x in xs:\n        yield (x, a)\n?>'
+                     '<p py:with="g=lambda x: (x, a)">${g(0)}<li py:for="v in (\'%s:%s;\' % (x, a) for x in xs)">$v${g(1)}</li>'
+                     '${map(lambda x: x == a, xs)}<i py:for="w in gen1()">$w</i></p>' + G.TAIL,
+     'files': {}, 'translator': False, 'auto_reload': True},
 ]
 SYSTEMATIC_DATA = [{'a': 1, 'n': 1, 'xs': [1, 0, 2]}, {'a': 'z', 'n': 3, 'xs': ['u']}]
 
